@@ -463,17 +463,10 @@ func init() {
 	rules["context.WithCancel"] = ctxDerive("ctxc", false, false)
 	rules["context.WithTimeout"] = ctxDerive("ctxt", false, true)
 	rules["context.WithDeadline"] = ctxDerive("ctxd", false, true)
-	rules["context.WithValue"] = func(x *Exec, fr *Frame, st *State, ins ssa.Instruction, sig *types.Signature, args []Value) Value {
-		return Value{T: args[0].T}
-	}
 	rules["context.SetPlanID"] = func(x *Exec, fr *Frame, st *State, ins ssa.Instruction, sig *types.Signature, args []Value) Value {
 		return Value{T: args[0].T}
 	}
 	rules["context.SetActionID"] = rules["context.SetPlanID"]
-	rules["context.Background"] = func(x *Exec, fr *Frame, st *State, ins ssa.Instruction, sig *types.Signature, args []Value) Value {
-		c := Mk(sortIface, typeTag(types.Typ[types.Int]), Const("glob_ctx_background", "Int"))
-		return Value{T: c}
-	}
 	rulesInvoke["context.Context.Done"] = func(x *Exec, fr *Frame, st *State, ins ssa.Instruction, sig *types.Signature, args []Value) Value {
 		return Value{T: UF("ctx.Done", "Int", args[0].T)}
 	}
